@@ -177,6 +177,7 @@ func checkC16(c *Ctx) error {
 					k.E.Run(fn, func(ps *symx.PathState) []any {
 						m := symx.NewFSModel(ps, "trace", srcRoot)
 						m.BaseClass = baseClass
+						m.ExploreUmask = true
 						home := ps.Fresh(symx.SString, "HOME")
 						cwd := ps.Fresh(symx.SString, "cwd")
 						for _, s := range []symx.Sym{home, cwd} {
@@ -274,6 +275,9 @@ func checkC16(c *Ctx) error {
 							return out
 						}
 						caseName := fmt.Sprintf("custom=%v(kind %d) user=%v base=%d prior=%d", custom, customKind, user, baseClass, prior)
+						if m.UmaskUsed {
+							caseName += fmt.Sprintf(" umask=%03o", m.Umask())
+						}
 						if baseClass >= 2 {
 							oblig += 2
 							if symx.IsNilIface(ret1) {
@@ -360,6 +364,14 @@ func checkC16(c *Ctx) error {
 			for customKind := 0; customKind <= 2; customKind++ {
 				for _, bs := range []int{0, 1, 2, 4, 5, 6} {
 					ncases = append(ncases, c16NativeCase{agent: ai.name, skill: ai.skill, sub: sub, user: user, customKind: customKind, baseState: bs})
+					if bs == 0 || bs == 5 {
+						for _, um := range []string{"077", "027"} {
+							if um == "027" && !c.Thorough() {
+								continue
+							}
+							ncases = append(ncases, c16NativeCase{agent: ai.name, skill: ai.skill, sub: sub, user: user, customKind: customKind, baseState: bs, umask: um})
+						}
+					}
 				}
 			}
 		}
@@ -380,6 +392,7 @@ func checkC16(c *Ctx) error {
 	c.Coverage["string_queries"] = queries
 	c.Assume("filepath.Abs of the custom path is an arbitrary clean absolute path (one symbol per argument); Join has its exact semantics on clean operands; $HOME and cwd are clean absolute paths")
 	c.Assume("native differential: every (agent, --user, --path kind, base state except unreadable) case is also run through the CLI built from the working tree with one concrete HOME / cwd / --path (a directory name containing a space included) and judged by the same documented expectation")
+	c.Assume("the process umask is an environment parameter: symbolic runs fork over {022, 027, 077} wherever a file is created with an explicit permission argument; the native cases for fresh and older-content destinations are repeated under umask 077 (thorough: 027 too)")
 	c.Assume("tilde expansion and relative --path resolution against cwd are those of filepath.Abs (outside the stub: trusted)")
 	return nil
 }
